@@ -4866,7 +4866,9 @@ look_sysfscpukinds(struct hwloc_topology *topology,
                 adjust_max);
 
   nr_pus = hwloc_bitmap_weight(topology->levels[0][0]->cpuset);
-  assert(nr_pus > 0);
+  if (nr_pus <= 0)
+    /* no PU was found (e.g. nothing online), the core will fail the discovery */
+    return -1;
   by_pu = calloc(nr_pus, sizeof(*by_pu));
   if (!by_pu)
     return -1;
